@@ -72,6 +72,7 @@ func (p sessProp) Oracle(inp interface{}, obs Sx) (string, string) {
 	}
 	prevID, prevInb, prevJid := "", int64(0), ""
 	smEnable := in.SMEnable
+	expInb := int64(0) // stanzas the SERVER pushed on the current stream-managed session (independent of the client's own counter)
 	for ci, co := range obs.L {
 		reqs, res, snap := co.L[0].L, co.L[1], co.L[2]
 		ok := res.L[0].Z == 0
@@ -93,7 +94,10 @@ func (p sessProp) Oracle(inp interface{}, obs Sx) (string, string) {
 					return fmt.Sprintf("conn %d: <resume previd=%q/> but the id held from the last <enabled/> is %q", ci, id, prevID), "resume-id"
 				}
 				if rq.L[0].L[2].Z != prevInb {
-					return fmt.Sprintf("conn %d: <resume h=%d/> but %d stanzas were received on the session", ci, rq.L[0].L[2].Z, prevInb), "resume-h"
+					return fmt.Sprintf("conn %d: <resume h=%d/> but the session state says %d stanzas were received", ci, rq.L[0].L[2].Z, prevInb), "resume-h"
+				}
+				if rq.L[0].L[2].Z != expInb {
+					return fmt.Sprintf("conn %d: <resume h=%d/> but the server had sent %d stanzas on the stream-managed session", ci, rq.L[0].L[2].Z, expInb), "resume-h-vs-sent"
 				}
 			case 4:
 				sawBind = true
@@ -141,10 +145,46 @@ func (p sessProp) Oracle(inp interface{}, obs Sx) (string, string) {
 			}
 		}
 		_ = sawAuth
+		// ---- C09: count reported during and after the traffic of this connection
+		if ok {
+			resumedNow := sawResume && resumeReply(c, prevID) == "resumed-same"
+			base := int64(-1) // unknown: no stream-managed session (the counter is not reported to anybody)
+			if resumedNow {
+				base = expInb
+			} else if enabledRes != "" {
+				base = 0
+			}
+			if base >= 0 {
+				want := []int64{}
+				for i := 0; i < c.Traffic; i++ {
+					if i%3 == 0 {
+						want = append(want, base+int64(i)+1)
+					}
+				}
+				got := co.L[3].L
+				if len(got) != len(want) {
+					return fmt.Sprintf("conn %d: %d acknowledgement requests sent, %d answers received", ci, len(want), len(got)), "traffic-answers-count"
+				}
+				for i := range want {
+					if got[i].Z != want[i] {
+						return fmt.Sprintf("conn %d: answer %d reports h=%d, the server had sent %d stanzas on the session", ci, i, got[i].Z, want[i]), "traffic-answer-h"
+					}
+				}
+				expInb = base + int64(c.Traffic)
+			} else {
+				// a connection on which stream management was not negotiated at all: the client
+				// keeps whatever SM state it holds and keeps counting (odd server; DESIGN.md C11)
+				expInb += int64(c.Traffic)
+			}
+		}
 		if snap.L[0].Z == 1 {
 			prevID, prevInb, prevJid = id, snap.L[2].Z, jid
 		} else {
 			prevID, prevInb, prevJid = "", 0, ""
+			expInb = 0
+		}
+		if prevID == "" {
+			expInb = 0
 		}
 	}
 	return "", ""
@@ -571,4 +611,29 @@ func init() {
 	register(sessProp{id: "C03", gen: genC03, rule: "scripted TCP/TLS server against the real Client.connect: good scripts for random client configurations and feature shapes, then the per-step alphabet: every step (each stream header, each features element, proceed, auth reply, resume reply, bind reply, session reply, enable reply) x every reply kind (32 kinds: success variants, failure/error replies with and without echoed payload, unexpected elements of every other kind, malformed XML, stream close, connection drop) with all other steps successful, with and without resumable state; quick tier runs a seed-dependent third of the matrix, thorough all of it 12 times with fresh shapes; distinct = configuration + script item kinds; non-trivial = script of >= 3 items"})
 	register(sessProp{id: "C04", gen: genC04, rule: "Insecure x TLS config {RootCAs, InsecureSkipVerify, nil} x ServerName {unset, other} x STARTTLS {absent, offered, required} x reply {proceed, failure, unexpected, malformed, close, drop} x certificate {valid, wrong host, untrusted issuer, expired} x history {first connection, reconnect after a TLS session, reconnect after a clear session} against a real TLS-capable server; the server records whether each client element arrived inside TLS; quick tier a seed-dependent third, thorough the full product 6 times"})
 	register(sessProp{id: "C11", gen: genC11, rule: "histories of 3 connections: SM enabled with id, then two reconnects whose reply to <resume/> ranges over {resumed same id, other id, failed, failed+stanza condition, every unexpected kind, malformed, close, drop} (all pairs), SM advertised or not on the second connection, random stanza traffic between connections (counted by the real receive loop); quick tier a third of the pairs, thorough all pairs 8 times"})
+}
+
+// genC09sess: stream-managed sessions with traffic, enabled with and without
+// resumption granted, continued over 1-3 resumptions (C09's "continued across a resumption").
+func genC09sess(r *rand.Rand, tier string) []interface{} {
+	n := 60
+	if tier == "thorough" {
+		n = 1500
+	}
+	var out []interface{}
+	for i := 0; i < n; i++ {
+		in := sessIn{Insecure: true, SMEnable: true, SMResume: r.Intn(4) > 0, Tag: "c09"}
+		held := fmt.Sprintf("h-%d", i)
+		res := []string{"true", "true", "true", "false", "", "1"}[r.Intn(6)]
+		sh := shape{smOffer: true, sess: r.Intn(2)}
+		g, _ := goodConn(in, sh, "", "", held, res)
+		conns := []sessConn{{Groups: g, Traffic: r.Intn(9)}}
+		for k := r.Intn(4); k > 0; k-- {
+			g2, _ := goodConn(in, shape{smOffer: true}, held, "resumed", "unused", "true")
+			conns = append(conns, sessConn{Groups: g2, Traffic: r.Intn(7)})
+		}
+		in.Conns = conns
+		out = append(out, in)
+	}
+	return out
 }
